@@ -3,11 +3,17 @@ NOTES = ("Model-based verification with explicit TLA+ specifications (spec/*.tla
          "replaying TLC-generated transitions/scenarios into the real library and by validating recorded traces of the real "
          "library against trace specs. See DESIGN.md. Exit codes: 0 held, 1 VIOLATION, 2 machinery error (never a verdict).")
 ENGINES = [
-    dict(name="tlc", path="/opt/veriftools/tla/tla2tools.jar", serves_properties=["C09"], kind_free_text="explicit-state model checker for TLA+ (exhaustive MC, scenario/edge emission, trace validation)"),
-    dict(name="vh", path="harness/cmd/vh", serves_properties=["C09"], kind_free_text="Go conformance harness rebuilt from /repo's working tree with -tags verif"),
+    dict(name="tlc", path="/opt/veriftools/tla/tla2tools.jar", serves_properties=["C09", "C10"], kind_free_text="explicit-state model checker for TLA+ (exhaustive MC, scenario/edge emission, trace validation)"),
+    dict(name="vh", path="harness/cmd/vh", serves_properties=["C09", "C10"], kind_free_text="Go conformance harness rebuilt from /repo's working tree with -tags verif"),
 ]
 NOT_APPLICABLE = {}
 CHECKS = {
+    "C10": dict(
+        engine="tlc", level="model_checking",
+        technique="TLA+ spec LRUConc.tla model-checked with the lock table measured on the real code via the verif hook; recorded concurrent histories of the real cache checked for linearizability by TLC (Trace_LRUConc.tla, silent linearization steps); race detector as run-time monitor",
+        text="(1) The lock mode each LRU method holds at its access point is measured through the hook and LRUConc.tla is model-checked with that table (no two conflicting accesses overlap, lock sanity, termination, all LRU invariants in every interleaving of 3 processes x 1 call and 2 processes x 2 calls); a predicted race is reported only after it is reproduced by a targeted run under the race detector. (2) 1 600 (quick) / 16 000 (thorough) concurrent histories of 2-4 goroutines are recorded from the real cache and TLC searches a linearization against the sequential LRU spec for each; long 16-goroutine runs are ordered by under-lock stamps and validated step by step incl. the quiescent state. (3) All runs execute under the Go race detector; panics, deadlock timeouts and capacity/sentinel violations are violations.",
+        note="Data-race freedom of memory accesses is monitored by the Go race detector, not by TLC; the TLA+ tools decide the lock protocol (on the measured table) and linearizability of observed histories. Schedules are those the Go scheduler produced in this run.",
+    ),
     "C09": dict(
         engine="tlc", level="model_checking",
         technique="TLA+ spec LRU.tla model-checked by TLC; every transition of the model graph replayed into the real cache; recorded traces of the real cache validated against Trace_LRU.tla",
